@@ -22,10 +22,12 @@ from . import dict_driver as dd
 
 ALL_OPS = ['set', 'get', 'getd', 'del', 'contains', 'len', 'iter', 'keys', 'values', 'items', 'pop', 'popd', 'popitem',
            'popkeys', 'popkeysd', 'setdefault', 'update', 'clear', 'copy', 'eq', 'ne']
+MC_OPS = ALL_OPS + ['setbad', 'updatebad']          # the operations of the model (layer I)
 FAMILIES = ['dict', 'null', 'file', 'dir', 'sql']
 DEVIATIONS = {
     'dir_del_missing_silent': dict(BACKEND='dir', FNID=0, OPS={'set', 'del'}, Deviations={'dir_del_missing_silent'}),
     'dir_fname_alias': dict(BACKEND='dir', FNID=1, OPS={'set', 'get', 'contains', 'del'}, Deviations=set()),
+    'update_partial_on_failure': dict(BACKEND='sql', FNID=0, OPS={'set', 'updatebad'}, Deviations={'update_partial_on_failure'}),
 }
 
 
@@ -93,7 +95,7 @@ def random_ops(rng, n, bad=True):
     ops = []
     copied = False
     for _ in range(n):
-        op = rng.choice(ALL_OPS + ['set', 'set', 'updatekw', 'eqx', 'xeq'] + (['setbad'] if bad else []))
+        op = rng.choice(ALL_OPS + ['set', 'set', 'updatekw', 'eqx', 'xeq'] + (['setbad', 'updatebad'] if bad else []))
         locs = [1, 2] + ([3] if copied else [])
         o = {'op': op, 'loc': rng.choice(locs)}
         k = rng.randint(1, dd.NK)
@@ -108,6 +110,9 @@ def random_ops(rng, n, bad=True):
             if rng.random() < 0.3:
                 ks.append(ks[0])          # the same key listed twice
             o.update(ks=ks, d=dd.DEFAULT)
+        elif op == 'updatebad':
+            k2 = rng.choice([x for x in range(1, dd.NK + 1) if x != k])
+            o.update(k=k, v=10 * k + rng.randint(1, 3), k2=k2)
         elif op in ('update', 'updatekw'):
             k2 = rng.choice([x for x in range(1, dd.NK + 1) if x != k])
             o.update(k=k, v=10 * k + rng.randint(1, 3), k2=k2, v2=10 * k2 + rng.randint(1, 3))
@@ -123,11 +128,27 @@ def random_ops(rng, n, bad=True):
     return ops
 
 
+# deterministic probes of corners random walks reach only by luck (each motivated by a seeded change they missed)
+PROBES = [
+    # a key that goes back to an EARLIER value (v1 -> v2 -> v1): comparisons, copies and bulk reads must see the last write
+    [dict(op='set', loc=1, k=1, v=11), dict(op='set', loc=1, k=1, v=12), dict(op='set', loc=1, k=2, v=21),
+     dict(op='set', loc=1, k=1, v=11), dict(op='set', loc=2, k=1, v=11), dict(op='set', loc=2, k=2, v=21),
+     dict(op='eq', loc=1, o=2), dict(op='eq', loc=2, o=1), dict(op='eqx', loc=1, o=2), dict(op='xeq', loc=1, o=2),
+     dict(op='copy', loc=1, o=3), dict(op='items', loc=3), dict(op='eq', loc=3, o=2), dict(op='ne', loc=1, o=3),
+     dict(op='set', loc=2, k=1, v=12), dict(op='eq', loc=1, o=2), dict(op='eqx', loc=2, o=1)],
+    # equal size, different key sets, a stored None-like second value; failing bulk update between reads
+    [dict(op='set', loc=1, k=1, v=11), dict(op='set', loc=1, k=3, v=32), dict(op='set', loc=2, k=1, v=11),
+     dict(op='set', loc=2, k=4, v=42), dict(op='eq', loc=1, o=2), dict(op='ne', loc=1, o=2), dict(op='eqx', loc=1, o=2),
+     dict(op='updatebad', loc=1, k=2, v=21, k2=3), dict(op='items', loc=1), dict(op='len', loc=1),
+     dict(op='update', loc=1, k=2, v=22, k2=3, v2=31), dict(op='items', loc=1), dict(op='keys', loc=1)],
+]
+
+
 def usable_ops(ops, backend, keyset, valset=None):
     """drop operations a configuration cannot express (keyword update needs str keys; cached objects have dict.copy)"""
     out = []
     for o in ops:
-        if o['op'] == 'updatekw' and keyset not in ('str', 'alias-dash'):
+        if o['op'] == 'updatekw' and keyset not in ('str', 'alias-dash', 'dash'):
             o = dict(o, op='update')
         if o['op'] == 'copy' and backend.endswith('+cache'):
             continue
@@ -193,6 +214,14 @@ def plan(pid, tier, rng, behaviours):
     # every combination at least once, with a behaviour of its own
     for i, (b, ks, vs) in enumerate(combos):
         jobs.append((b, ks, vs, behaviours[(i * 3) % len(behaviours)], os.path.join(root, 'j%d' % len(jobs))))
+    # the probes: on every (backend, value set), with every key set in the thorough tier and a rotating one otherwise
+    seen = {}
+    for (b, ks, vs) in combos:
+        seen.setdefault((b, vs), []).append(ks)
+    for n, ((b, vs), kss) in enumerate(sorted(seen.items())):
+        for ks in (kss if thorough else [kss[n % len(kss)], kss[0]]):
+            for pr in PROBES:
+                jobs.append((b, ks, vs, [dict(o) for o in pr], os.path.join(root, 'j%d' % len(jobs))))
     return jobs, combos
 
 
@@ -210,7 +239,7 @@ def run(pid, tier, rep):
     rng = random.Random(common.seed() * 17 + int(pid[1:]))
     mcs = []
     from concurrent.futures import ThreadPoolExecutor
-    base = dict(NK=3, NV=2, NL=3, FNID=0, DEPTH=5 if thorough else 4, OPS=set(ALL_OPS), Deviations=set())
+    base = dict(NK=3, NV=2, NL=3, FNID=0, DEPTH=5 if thorough else 4, OPS=set(MC_OPS), Deviations=set())
     with ThreadPoolExecutor(max_workers=5) as ex:
         for r in ex.map(lambda fam: model_check(dict(base, BACKEND=fam, DEPTH=base['DEPTH'] - (1 if fam == 'sql' and thorough else 0)), work, workers=3), FAMILIES):
             mcs.append(r)
@@ -225,7 +254,7 @@ def run(pid, tier, rep):
             rep.notes.append('deviation %s: no counterexample (model insensitive?)' % d)
     behaviours = []
     gen_states = 0
-    gconst = dict(BACKEND='file', NK=dd.NK, NV=3, NL=3, FNID=0, OPS=set(ALL_OPS), Deviations=set())
+    gconst = dict(BACKEND='file', NK=dd.NK, NV=3, NL=3, FNID=0, OPS=set(MC_OPS), Deviations=set())
     b, st = generate(gconst, work, 300 if thorough else 50, 30 if thorough else 18, common.seed() + 3)
     behaviours += b
     gen_states += st
